@@ -58,14 +58,14 @@ MODEL_ACTIONS = ["Write", "SelectW", "Read", "SelectR", "Exit", "Finished"]
 # system-call level drivers: (cfg, size maps)
 KGEN = {
     "quick": [("Gen_PipeK_k2.cfg", "x256,edge,edge2"), ("Gen_PipeK_k3.cfg", "edge"), ("Gen_PipeK_c2.cfg", "x256,edge,edge2")],
-    "thorough": [("Gen_PipeK_k2.cfg", "x256,edge,edge2"), ("Gen_PipeK_k3big.cfg", "x256,edge,edge2"),
+    "thorough": [("Gen_PipeK_k2.cfg", "x256,edge,edge2"), ("Gen_PipeK_k3big.cfg", "x256,edge"),
                  ("Gen_PipeK_c2big.cfg", "x256,edge,edge2")],
 }
 KRAND = {"quick": (150, 40), "thorough": (3000, 60)}          # (histories, steps) per level
 
 E2E = {
-    "quick": ["--dfs", "5", "--dfs-max", "40", "--windows", "12,40", "--win-depth", "3", "--win-max", "8",
-              "--random", "6"],
+    "quick": ["--dfs", "6", "--dfs-max", "48", "--windows", "12,40", "--win-depth", "3", "--win-max", "8",
+              "--random", "10"],
     "thorough": ["--dfs", "8", "--dfs-max", "250", "--windows", "10,25,60,150", "--win-depth", "4", "--win-max", "16",
                  "--random", "40"],
 }
@@ -183,6 +183,10 @@ def run(tier):
         cat = os.path.join(wd, "catalogue.ndjson")
         r = vlib.tlc("Gen_Pipe", f"Gen_Pipe_{tier}.cfg", workers=4, timeout=1200, json_out=cat, tool_seed=vlib.seed())
         vlib.tlc_must_pass(r, "scenario catalogue (Gen_Pipe)")
+        with open(cat) as f:          # TLC's workers print in any order: sort, so that ids and schedules are reproducible
+            lines = sorted(f)
+        with open(cat, "w") as f:
+            f.writelines(lines)
         catalogue = {}
         forms = {}
         with open(cat) as f:
@@ -217,7 +221,7 @@ def run(tier):
         parts = []
         for cfg, maps in KGEN[tier]:
             gen = os.path.join(wd, cfg + ".hist.ndjson")
-            r = vlib.tlc("Gen_PipeK", cfg, workers=4, timeout=1200, json_out=gen)
+            r = vlib.tlc("Gen_PipeK", cfg, workers=1, timeout=1800, json_out=gen)   # one worker: strict BFS, deterministic histories
             vlib.tlc_must_pass(r, f"driver {cfg}")
             part = os.path.join(wd, cfg + ".k.ndjson")
             _, out, _ = vlib.run_harness(PKG, ["krep", "--in", gen, "--out", part, "--actors", "3", "--maps", maps,
